@@ -90,6 +90,7 @@ class Outcome:
         self.assumptions_seen = []
         self.known_printed = []
         self.runs = []        # (label, lines, RunResult) of every suite run, for the extra predicates
+        self.theorems = []
 
 
 def prove(o):
@@ -103,6 +104,7 @@ def prove(o):
     code = re.sub(r"\(\*.*?\*\)", "", txt, flags=re.S)
     thms = re.findall(r"^\s*(?:Theorem|Corollary)\s+([A-Za-z0-9_']+)", code, re.M)
     o.obligations = len(thms)
+    o.theorems = thms
     bad = core.scan_forbidden()
     if bad:
         o.broken.append(dict(kind="forbidden-construct", what="; ".join(bad[:5])))
@@ -223,7 +225,7 @@ def write_evidence(o, wall, violations):
         evaluations=o.evaluations, distinct_nontrivial=len(o.distinct),
         rule="op lines generated by the property's suites from VERIF_SEED (harness/suites.py), each executed on the implementation (ASan+UBSan build of /repo's working tree), the extracted mirror model and the extracted abstract spec; non-trivial = passes the first validation step of its function (16 tokens / format / supported feature request) or belongs to an exhaustive sweep; distinct by the text of the op line",
         samples=o.samples[:8] or [dict(note="no correspondence case ran")],
-        suites=o.stats, broken=o.broken[:5], notes=o.notes,
+        theorems=o.theorems, suites=o.stats, broken=o.broken[:5], notes=o.notes,
         exhaustive=any(s.get("exhaustive") for s in o.stats.values()),
         exhaustive_parts=[s["exhaustive"] for s in o.stats.values() if s.get("exhaustive")],
         known_findings=o.known_printed,
